@@ -557,6 +557,9 @@ pub enum Ev {
     /// retries that step (a failed send is abandoned)
     CycleF { confirmed: bool, port: u8, len: usize, rx1: Option<Frame>, rx2: Option<Frame>, fault_at: usize },
     JoinCycleF { rx1: Option<Frame>, rx2: Option<Frame>, fault_at: usize },
+    /// as CycleF, but the radio stays down for `burst` consecutive radio calls: the retried step fails again
+    /// `burst - 1` times before it succeeds
+    CycleFB { confirmed: bool, port: u8, len: usize, rx1: Option<Frame>, rx2: Option<Frame>, fault_at: usize, burst: usize },
     /// snapshot the session through serde and restore it into the same device (C20)
     Persist,
     /// the application configures another credential set for its next join (the network knows the device by it)
@@ -854,7 +857,7 @@ impl<const PW: u8, const GAIN: i8, const D: usize> NbCore<PW, GAIN, D> {
                 });
                 r
             }
-            Ev::Fault(_) | Ev::Cycle { .. } | Ev::JoinCycle { .. } | Ev::CycleF { .. } | Ev::JoinCycleF { .. } => {
+            Ev::Fault(_) | Ev::Cycle { .. } | Ev::JoinCycle { .. } | Ev::CycleF { .. } | Ev::CycleFB { .. } | Ev::JoinCycleF { .. } => {
                 unreachable!("handled by apply")
             }
         };
@@ -926,18 +929,21 @@ impl<const PW: u8, const GAIN: i8, const D: usize> NbCore<PW, GAIN, D> {
         }
         match ev {
             Ev::Cycle { confirmed, port, len, rx1, rx2 } => {
-                self.cycle(Ev::Send { confirmed: *confirmed, port: *port, len: *len }, rx1.clone(), rx2.clone(), None)
+                self.cycle(Ev::Send { confirmed: *confirmed, port: *port, len: *len }, rx1.clone(), rx2.clone(), None, 1)
             }
-            Ev::JoinCycle { rx1, rx2 } => self.cycle(Ev::Join, rx1.clone(), rx2.clone(), None),
+            Ev::JoinCycle { rx1, rx2 } => self.cycle(Ev::Join, rx1.clone(), rx2.clone(), None, 1),
             Ev::CycleF { confirmed, port, len, rx1, rx2, fault_at } => {
-                self.cycle(Ev::Send { confirmed: *confirmed, port: *port, len: *len }, rx1.clone(), rx2.clone(), Some(*fault_at))
+                self.cycle(Ev::Send { confirmed: *confirmed, port: *port, len: *len }, rx1.clone(), rx2.clone(), Some(*fault_at), 1)
             }
-            Ev::JoinCycleF { rx1, rx2, fault_at } => self.cycle(Ev::Join, rx1.clone(), rx2.clone(), Some(*fault_at)),
+            Ev::CycleFB { confirmed, port, len, rx1, rx2, fault_at, burst } => {
+                self.cycle(Ev::Send { confirmed: *confirmed, port: *port, len: *len }, rx1.clone(), rx2.clone(), Some(*fault_at), *burst)
+            }
+            Ev::JoinCycleF { rx1, rx2, fault_at } => self.cycle(Ev::Join, rx1.clone(), rx2.clone(), Some(*fault_at), 1),
             e => vec![self.micro(e)],
         }
     }
 
-    fn cycle(&mut self, start: Ev, rx1: Option<Frame>, rx2: Option<Frame>, fault_at: Option<usize>) -> Vec<Micro> {
+    fn cycle(&mut self, start: Ev, rx1: Option<Frame>, rx2: Option<Frame>, fault_at: Option<usize>, burst: usize) -> Vec<Micro> {
         let mut out = vec![];
         let mut idx = 0usize;
         let mut push = |s: &mut Self, e: Ev, out: &mut Vec<Micro>| -> bool {
@@ -946,8 +952,16 @@ impl<const PW: u8, const GAIN: i8, const D: usize> NbCore<PW, GAIN, D> {
             let is_start = matches!(e, Ev::Send { .. } | Ev::Join);
             let mut m = if faulty { s.micro(&Ev::Fault(Box::new(e.clone()))) } else { s.micro(&e) };
             if faulty && matches!(m.resp, Resp::ErrRadio) && !is_start && s.dead.is_none() {
-                // the application retries the step whose radio call failed
+                // the application retries the step whose radio call failed (and fails again while the radio stays down)
                 out.push(m);
+                for _ in 1..burst.max(1) {
+                    let m2 = s.micro(&Ev::Fault(Box::new(e.clone())));
+                    if !matches!(m2.resp, Resp::ErrRadio) || s.dead.is_some() {
+                        out.push(m2);
+                        return false;
+                    }
+                    out.push(m2);
+                }
                 m = s.micro(&e);
             }
             let cont = s.dead.is_none() && !matches!(m.resp, Resp::ErrRadio | Resp::ErrState(_) | Resp::ErrMac(_));
